@@ -300,6 +300,11 @@ class Interp:
             return self.fresh(prefix)
         if spec[0] == "lit":
             return spec[1]
+        if spec[0] == "long":
+            # a legal name close to the 255-character limit: names the library derives from it
+            # ('<node>-<interface>', '...-link', '<facility>-ns') may cross the limit in a later call
+            base = self.fresh(prefix)
+            return base + "x" * max(0, int(spec[1]) - len(base))
         pool = s.ids(cls) if cls else sorted(s.nodes)
         if not pool:
             return self.fresh(prefix)
@@ -848,6 +853,9 @@ _k = st.integers(0, 7)
 _h = st.integers(0, 1)
 _site = st.sampled_from(SITES)
 _name_fresh = st.just(["fresh"])
+# mostly short fresh names, now and then a legal name close to the length limit
+name_fresh_or_long = st.one_of(*([st.just(["fresh"])] * 7),
+                               st.builds(lambda n: ["long", n], st.sampled_from([230, 244, 247, 249, 250, 251, 253, 255])))
 _name_any = st.one_of(st.just(["fresh"]), st.just(["fresh"]), st.just(["fresh"]), st.builds(lambda k: ["dup", k], _k))
 _id_spec = st.one_of(st.none(), st.none(), st.just(["fresh"]))
 
